@@ -225,4 +225,118 @@ theorem transmit_events (t : Tx) :
   rw [fwdOf_append, dataOf_append, (fwd_events t).1, (fwd_events t).2, transmit_noFwd t.fwd.1 (by rw [(fwd_fields t).1])]
   simp
 
+/-! ## `_receive_sack_chunk` -/
+
+theorem gapLimit_eq (t : Tx) (cum : Int) : t.gapLimit cum = gapLimitOf cum t.sentQ := by
+  unfold Tx.gapLimit gapLimitOf
+  cases t.sentQ.getLast? <;> rfl
+
+/-- `seen` and `highest_newly_acked` of a SACK on the sent queue `l` that the cumulative-ack loop left -/
+def seenOf (cum : Int) (gaps : List (Nat × Nat)) (l : List SChunk) : List Int := (gapSeen cum (gapLimitOf cum l) gaps).1
+def hnaOf (cum : Int) (gaps : List (Nat × Nat)) (l : List SChunk) : Int :=
+  htnaHna (gapSeen cum (gapLimitOf cum l) gaps).1 (gapSeen cum (gapLimitOf cum l) gaps).2 cum l
+def htnaOf (cum : Int) (gaps : List (Nat × Nat)) (l : List SChunk) : List SChunk :=
+  htnaList (gapSeen cum (gapLimitOf cum l) gaps).1 (gapSeen cum (gapLimitOf cum l) gaps).2 l
+
+/-- the gap phase: nothing (no gap blocks), or the HTNA loop followed by the strike loop -/
+theorem sackGaps_shapeP (t : Tx) (cum : Int) (gaps : List (Nat × Nat)) (now : Int) (db : Nat)
+    (ho : ∀ c ∈ t.outQ, Idle c) :
+    ∃ (tH : Tx) (loss : Bool), tH.outQ = t.outQ
+      ∧ (∃ fl sq oq, (t.sackGaps cum gaps now db).1 = { t with flight := fl, sentQ := sq, outQ := oq })
+      ∧ ((gaps.isEmpty = true ∧ (t.sackGaps cum gaps now db).1 = t)
+         ∨ (gaps.isEmpty = false ∧ tH.sentQ = htnaOf cum gaps t.sentQ
+            ∧ (t.sackGaps cum gaps now db).1
+                = (strikeLoop (seenOf cum gaps t.sentQ) (hnaOf cum gaps t.sentQ) now tH.sentQ.length 0 tH false).1
+            ∧ loss = (t.sackGaps cum gaps now db).2.2)) := by
+  cases hg : gaps.isEmpty with
+  | true =>
+    refine ⟨t, false, rfl, ⟨t.flight, t.sentQ, t.outQ, ?_⟩, Or.inl ⟨rfl, ?_⟩⟩ <;> simp [Tx.sackGaps, hg]
+  | false =>
+    have hs := sackGaps_strike t cum gaps now db ho hg
+    have hfr := hs.frame
+    simp only at hfr
+    have hq : (t.sackHtna cum gaps db).sentQ = htnaOf cum gaps t.sentQ := by
+      have := (htnaLoop_eq (gapSeen cum (t.gapLimit cum) gaps).1 (gapSeen cum (t.gapLimit cum) gaps).2 t.sentQ []
+        t.flight db cum).1
+      unfold htnaOf
+      rw [← gapLimit_eq]
+      simpa [Tx.sackHtna] using this
+    have hh := (htnaLoop_eq (gapSeen cum (t.gapLimit cum) gaps).1 (gapSeen cum (t.gapLimit cum) gaps).2 t.sentQ []
+        t.flight db cum).2
+    refine ⟨t.sackHtna cum gaps db, (t.sackGaps cum gaps now db).2.2, rfl,
+      ⟨(t.sackGaps cum gaps now db).1.flight, (t.sackGaps cum gaps now db).1.sentQ, (t.sackGaps cum gaps now db).1.outQ, ?_⟩,
+      Or.inr ⟨rfl, hq, ?_, rfl⟩⟩
+    · rw [hfr]; rfl
+    · unfold seenOf hnaOf
+      rw [← gapLimit_eq, ← hh]
+      simp only [Tx.sackGaps, hg, Bool.false_eq_true, if_false]
+
+structure SackShapeP (t t' : Tx) (cum : Int) (gaps : List (Nat × Nat)) (now : Int) : Prop where
+  ex : ∃ t4 tH : Tx, t' = t4.updateAdvAck
+    ∧ t4.lastSacked = cum ∧ t4.advAck = t.advAck ∧ t4.forwardNeeded = t.forwardNeeded ∧ t4.forwardTsn = t.forwardTsn
+    ∧ t4.localTsn = t.localTsn ∧ tH.outQ = t.outQ
+    ∧ ((gaps.isEmpty = true ∧ t4.sentQ = t.ackedQ cum ∧ t4.outQ = t.outQ)
+       ∨ (gaps.isEmpty = false ∧ tH.sentQ = htnaOf cum gaps (t.ackedQ cum)
+          ∧ t4.sentQ = (strikeLoop (seenOf cum gaps (t.ackedQ cum)) (hnaOf cum gaps (t.ackedQ cum)) now
+                          tH.sentQ.length 0 tH false).1.sentQ
+          ∧ t4.outQ = (strikeLoop (seenOf cum gaps (t.ackedQ cum)) (hnaOf cum gaps (t.ackedQ cum)) now
+                          tH.sentQ.length 0 tH false).1.outQ))
+
+theorem receiveSack_shapeP (t : Tx) (ho : ∀ c ∈ t.outQ, Idle c) (cum : Int) (gaps : List (Nat × Nat))
+    (now : Int) (t' : Tx) (evs : List TxEv) (hr : t.receiveSack cum gaps now = .ok (some (t', evs))) :
+    SackShapeP t t' cum gaps now := by
+  rw [receiveSack_eq] at hr
+  split at hr
+  · cases hr
+  · obtain ⟨tH, loss, hHo, hfrm, hcase⟩ := sackGaps_shapeP (t.sackAck cum) cum gaps now (t.sackDoneBytes cum)
+      (by simpa [Tx.sackAck] using ho)
+    generalize ((t.sackAck cum).sackGaps cum gaps now (t.sackDoneBytes cum)) = g at hr hfrm hcase
+    obtain ⟨fl, sq, oq, hfrm⟩ := hfrm
+    split at hr
+    · rename_i t3 ht3
+      have hfr := sackCwnd_frame _ _ _ _ _ _ _ ht3
+      have hT3 := sackT3_frame t3 (t.sackDone cum)
+      generalize (t3.sackT3 (t.sackDone cum)).1 = t4 at hr hT3
+      simp only [Outcome.ok.injEq, Option.some.injEq, Prod.mk.injEq] at hr
+      have e0 : t4.sentQ = g.1.sentQ ∧ t4.outQ = g.1.outQ := by rw [hT3, hfr]; exact ⟨rfl, rfl⟩
+      refine ⟨t4, tH, hr.1.symm, ?_, ?_, ?_, ?_, ?_, hHo, ?_⟩
+      · rw [hT3, hfr, hfrm]; rfl
+      · rw [hT3, hfr, hfrm]; rfl
+      · rw [hT3, hfr, hfrm]; rfl
+      · rw [hT3, hfr, hfrm]; rfl
+      · rw [hT3, hfr, hfrm]; rfl
+      · rcases hcase with ⟨h1, h2⟩ | ⟨h1, h2, h3, _⟩
+        · left
+          rw [e0.1, e0.2, h2]
+          exact ⟨h1, rfl, rfl⟩
+        · right
+          rw [e0.1, e0.2, h3]
+          exact ⟨h1, h2, rfl, rfl⟩
+    all_goals cases hr
+
+/-! ## `_t3_expired` -/
+
+structure T3ShapeP (t t' : Tx) : Prop where
+  ex : ∃ tM : Tx, Parts TR t tM ∧ tM.lastSacked = t.lastSacked ∧ tM.advAck = t.advAck
+    ∧ tM.forwardNeeded = t.forwardNeeded ∧ tM.forwardTsn = t.forwardTsn ∧ tM.localTsn = t.localTsn
+    ∧ t'.sentQ = tM.updateAdvAck.sentQ ∧ t'.outQ = tM.updateAdvAck.outQ ∧ t'.advAck = tM.updateAdvAck.advAck
+    ∧ t'.forwardNeeded = tM.updateAdvAck.forwardNeeded ∧ t'.forwardTsn = tM.updateAdvAck.forwardTsn
+    ∧ t'.lastSacked = tM.updateAdvAck.lastSacked ∧ t'.localTsn = tM.updateAdvAck.localTsn
+  t3 : t'.t3 = false
+  flight : t'.flight = 0
+
+theorem t3Expired_shapeP (t : Tx) (hw : WInv t) (now : Int) : T3ShapeP t (t.t3Expired now) := by
+  have hm := (t3Marked_spec t now hw).frame
+  have hp : Parts TR t (t.t3Marked now) := t3Mark_parts now t.sentQ.length 0 { t with t3 := false }
+  refine ⟨⟨t.t3Marked now, hp, ?_, ?_, ?_, ?_, ?_, rfl, rfl, rfl, rfl, rfl, rfl, rfl⟩, ?_, rfl⟩
+  · rw [hm]
+  · rw [hm]
+  · rw [hm]
+  · rw [hm]
+  · rw [hm]
+  · rw [t3Expired_eq]
+    have ha := (updateAdvAck_frame (t.t3Marked now)).2.2.2.1
+    show (t.t3Marked now).updateAdvAck.t3 = false
+    rw [ha, hm]
+
 end Aiortc.Sctp
